@@ -8,7 +8,7 @@ PROPERTY = 'C24'
 LEVEL = 'exploration'
 RULE = ('count 1..5, window in {0.5,1,2,3.25}s, 1..25 entrants with arrival offsets on a 1/8 s grid (exactly representable, '
         'bursts and ties), under a virtual clock (time.time and the loop clock are the same harness-owned clock). Oracle: for '
-        'every admit t, |{admits in [t, t+W)}| <= count; sorted admit times equal the work-conserving reference '
+        'the rate-limited body of an entrant may fail or be cancelled after admission (that must not refund a slot); every admit t, |{admits in [t, t+W)}| <= count; sorted admit times equal the work-conserving reference '
         'T_k = max(k-th arrival, T_{k-count} + W); every entrant is admitted once the loop drains. '
         'Non-trivial: at least one entrant had to wait (admit time > its arrival) and >= 2 distinct arrival instants.')
 ASSUMPTIONS = ['time.time() and asyncio loop time advance together (virtual clock); no wall-clock skew is modelled']
@@ -19,6 +19,7 @@ WINDOWS = [0.5, 1.0, 2.0, 3.25]
 
 def run_case(case):
     hostenv.install()
+    import asyncio
     import hailtop.utils.rate_limiter as rl
     from vlib.aiosched import new_loop, close_loop
 
@@ -41,9 +42,16 @@ def run_case(case):
         admits = []
         tasks = []
 
+        bodies = case.get('bodies') or []
+
         async def entrant(i):
             async with limiter:
                 admits.append(loop.time() - t0)
+                b = bodies[i % len(bodies)] if bodies else 0
+                if b == 1:
+                    raise ValueError('body failed')          # the rate-limited operation itself fails
+                if b == 2:
+                    raise asyncio.CancelledError()           # ... or is cancelled
 
         from vlib.aiosched import Livelock
         try:
@@ -60,9 +68,12 @@ def run_case(case):
         not_done = [i for i, t in enumerate(tasks) if not t.done()]
         if not_done:
             fails.append(('starved', 'every entrant is eventually admitted', f'entrants {not_done} never admitted'))
-        for t in tasks:
-            if t.done() and not t.cancelled() and t.exception() is not None:
+        for i, t in enumerate(tasks):
+            b = bodies[i % len(bodies)] if bodies else 0
+            if t.done() and not t.cancelled() and t.exception() is not None and not (b == 1 and isinstance(t.exception(), ValueError)):
                 fails.append(('raised', 'entering the limiter does not raise', repr(t.exception())))
+        if any(bodies):
+            classes.add('body_failed_or_cancelled')
         T = sorted(admits)
         for t in T:
             n = sum(1 for x in T if t <= x < t + W)
@@ -102,7 +113,8 @@ def run_shard(spec, seed, tier):
     bursts = st.lists(st.tuples(st.integers(0, 80), st.integers(1, 6)), min_size=1, max_size=8).map(
         lambda bs: [o for o, n in bs for _ in range(n)][:25])
     arrivals = st.one_of(st.lists(st.integers(0, 80), min_size=1, max_size=25), bursts)
-    strat = st.builds(lambda c, w, a: dict(count=c, window=w, arrivals=a), st.integers(1, 5), st.integers(0, 3), arrivals)
+    bodies = st.one_of(st.just([]), st.lists(st.sampled_from([0, 0, 1, 2]), min_size=1, max_size=6))
+    strat = st.builds(lambda c, w, a, b: dict(count=c, window=w, arrivals=a, bodies=b), st.integers(1, 5), st.integers(0, 3), arrivals, bodies)
     search(res, PROPERTY, strat, run_case, spec['n'], seed)
     return res
 
